@@ -186,7 +186,7 @@ def make_pass(spec):
     if name == 'BlockZXZPass':
         return [P.BlockZXZPass(k.get('min', 2))]
     if name == 'FullBlockZXZPass':
-        return [P.FullBlockZXZPass(k.get('min', 2), bool(k.get('scan')), bool(k.get('left', True)))]
+        return [P.FullBlockZXZPass(k.get('min', 2), bool(k.get('scan')), bool(k.get('left', True)), perform_extract=bool(k.get('extract', True)))]
     if name == 'MGDPass':
         return [P.MGDPass(bool(k.get('twice', True)))]
     if name == 'Rebase2QuditGatePass':
@@ -468,10 +468,11 @@ def generate(seed, quick=True):
                 ops[j:j] = [o, o]
         left = rng.random() < 0.5
         thr = rng.choice([1e-8, 1e-10])
-        cases.append(base('ScanningGateRemovalPass', [2] * n, ops, 'random+pairs', ctor={'left': left, 'thr': thr}, tol=TOL_NUM, seed=i))
+        tol = max(TOL_NUM, 10 * math.sqrt(thr))        # the threshold bounds a squared distance
+        cases.append(base('ScanningGateRemovalPass', [2] * n, ops, 'random+pairs', ctor={'left': left, 'thr': thr}, tol=tol, seed=i))
         if i % 2 == 0:
             cases.append(base('IterativeScanningGateRemovalPass', [2] * n, ops, 'random+pairs', ctor={'left': left, 'thr': thr},
-                              tol=TOL_NUM, seed=i))
+                              tol=tol, seed=i))
     # ---- diagonal synthesis
     for i in range(40 if quick else 400):
         n = rng.choice(widths())
@@ -488,8 +489,7 @@ def generate(seed, quick=True):
                           opt={'a': ['VariableUnitaryGate/3'], 'b': ['VariableUnitaryGate/2', 'MPRZGate/3', 'MPRYGate/3']}))
         cases.append(base('BlockZXZPass', [2, 2, 2], ops3, 'monomial-unitary', ctor={'min': 2}, run='sim', tol=TOL_NUM, workers=w, sched=s,
                           build={'table_as': 'variable'},
-                          opt={'a': ['VariableUnitaryGate/3'], 'b': ['VariableUnitaryGate/2', 'MPRZGate/3', 'MPRYGate/3', 'HGate', 'IdentityGate',
-                                                                       'CZGate', 'DiagonalGate/2', 'MPRZGate/2', 'MPRYGate/2']}))
+                          opt={'a': ['VariableUnitaryGate/3'], 'b': ['VariableUnitaryGate/2', 'MPRZGate/3', 'MPRYGate/3', 'HGate', 'CNOTGate', 'RZGate', 'CZGate']}))
         cases.append(base('FullQSDPass', [2, 2, 2], ops3, 'monomial-unitary', ctor={'min': 2}, run='sim', tol=TOL_NUM, workers=w, sched=s,
                           build={'table_as': 'variable'},
                           opt={'a': ['VariableUnitaryGate/3', 'MPRZGate/3', 'MPRYGate/3'],
@@ -502,9 +502,39 @@ def generate(seed, quick=True):
         ops = [o for o in ops if len(o['loc']) == 1 or o['g'] == 'CZ']
         cases.append(base('Rebase2QuditGatePass', [2] * n, ops, 'random', ctor={'src': 'CZGate', 'dst': 'CNOTGate'}, run='sim', tol=TOL_NUM,
                           workers=rng.randint(1, 3), sched=rng.randrange(1 << 16), opt={'a': ['CZGate'], 'b': ['CNOTGate', 'U3Gate']}))
+    # ---- multiplexed-rotation decomposition (monomial points of MPRZ / MPRY)
+    for i in range(16 if quick else 160):
+        kind = ('MPRZ', 'MPRY')[i % 2]
+        n = rng.choice([2, 3])
+        ps = [rng.randint(-8, 8) for _ in range(2 ** (n - 1))] if kind == 'MPRZ' else [4 * rng.randint(-2, 2) for _ in range(2 ** (n - 1))]
+        ops = rand_ops(rng, n, rng.randint(0, 2), with_params=False) + [exact.op_record(kind, [rng.randrange(n)] + ps, list(range(n)))]
+        twice = rng.random() < 0.5
+        cases.append(base('MGDPass', [2] * n, ops, 'random+mpr', ctor={'twice': twice}, tol=1e-6,
+                          opt={'a': ['%sGate/3' % kind] if n == 3 else [], 'b': ['CNOTGate', 'RZGate', 'RYGate', 'MPRZGate/2', 'MPRYGate/2']}))
+    # ---- diagonal extraction (numerical) and the full Block-ZXZ flow that uses it by default
+    for i in range(3 if quick else 40):
+        ops = [table_op(monomial_table(rng, [2, 2]), [0, 1]) for _ in range(rng.randint(2, 3))]
+        cases.append(base('ExtractDiagonalPass', [2, 2], ops, 'monomial-unitaries', build={'table_as': 'variable'}, tol=TOL_NUM,
+                          opt={'a': [], 'b': []}))
+    for i in range(4 if quick else 40):
+        U = monomial_table(rng, [2, 2, 2])
+        extract = i % 2 == 0
+        cases.append(base('FullBlockZXZPass', [2, 2, 2], [table_op(U, [0, 1, 2])], 'monomial-unitary', ctor={'min': 2, 'extract': extract},
+                          run='sim', tol=TOL_NUM, workers=rng.randint(1, 3), sched=rng.randrange(1 << 16), build={'table_as': 'variable'},
+                          opt={'a': ['VariableUnitaryGate/3', 'MPRZGate/3', 'MPRYGate/3'],
+                               'b': ['VariableUnitaryGate/2', 'VariableUnitaryGate', 'CNOTGate', 'RZGate', 'RYGate', 'HGate', 'CZGate',
+                                     'DiagonalGate/2', 'MPRZGate/2', 'MPRYGate/2']}))
+    for i in range(3 if quick else 30):
+        ops = rand_ops(rng, 2, rng.randint(2, 4), arities=(1, 2), with_params=False, force=['CZ'])
+        ops = [o for o in ops if len(o['loc']) == 1 or o['g'] == 'CZ'] + [op('CZ', [0, 1])]
+        cases.append(base('AutoRebase2QuditGatePass', [2, 2], ops, 'random', ctor={'depth': 3}, run='sim', tol=TOL_NUM,
+                          gate_set=['CNOTGate', 'U3Gate'], workers=rng.randint(1, 3), sched=rng.randrange(1 << 16),
+                          opt={'a': ['CZGate'], 'b': ['CNOTGate', 'U3Gate']}))
     if not quick:
-        for i in range(40):
-            ops = [table_op(monomial_table(rng, [2, 2]), [0, 1]) for _ in range(rng.randint(2, 3))]
-            cases.append(base('ExtractDiagonalPass', [2, 2], ops, 'monomial-unitaries', build={'table_as': 'variable'}, tol=TOL_NUM,
-                              opt={'a': [], 'b': []}))
+        for i in range(30):
+            n = rng.choice([1, 2])
+            ops = rand_ops(rng, n, rng.randint(2, 4))
+            cases.append(base('TreeScanningGateRemovalPass', [2] * n, ops, 'random', ctor={'left': rng.random() < 0.5, 'thr': 1e-8, 'depth': rng.randint(1, 2)},
+                              run='sim', tol=1e-3, workers=2, sched=i))
+            cases.append(base('ExhaustiveGateRemovalPass', [2] * n, ops, 'random', ctor={'thr': 1e-8}, run='sim', tol=1e-3, workers=2, sched=i))
     return cases
